@@ -325,3 +325,53 @@ func verifListing(sf *SexpFunction, seen map[*SexpFunction]bool) *VerifListing {
 	}
 	return l
 }
+
+// VerifDataTop returns the top k cells of the data stack, bottom-most
+// first (all of them if the stack holds fewer). Read-only.
+func (env *Zlisp) VerifDataTop(k int) []Sexp {
+	n := env.datastack.Size()
+	if k > n {
+		k = n
+	}
+	if k <= 0 {
+		return nil
+	}
+	r, err := env.datastack.GetExpressions(k)
+	if err != nil {
+		return nil
+	}
+	return r
+}
+
+// VerifDataDistance returns the number of cells from the top of the
+// data stack down to and including the nearest cell for which stop returns
+// true (0 if there is none). Read-only.
+func (env *Zlisp) VerifDataDistance(stop func(Sexp) bool) int {
+	n := env.datastack.Size()
+	for i := 0; i < n; i++ {
+		x, err := env.datastack.GetExpr(i)
+		if err != nil {
+			return 0
+		}
+		if stop(x) {
+			return i + 1
+		}
+	}
+	return 0
+}
+
+// VerifPushedConst returns the constant a push instruction pushes.
+func VerifPushedConst(in Instruction) (Sexp, bool) {
+	if p, ok := in.(PushInstr); ok {
+		return p.expr, true
+	}
+	return nil, false
+}
+
+// VerifStackmarkName returns the name of a named stack mark cell.
+func VerifStackmarkName(x Sexp) (string, bool) {
+	if m, ok := x.(*SexpStackmark); ok {
+		return m.sym.name, true
+	}
+	return "", false
+}
